@@ -33,7 +33,7 @@ def _render_part(p, rng, single):
         return ['', ' ', '   ']
     if cls == 'none':
         return ['None', ' None', 'None  ']
-    return ['x', '1.5', '--1', 'none', '1 2', '0x10', 'NONE', '1e3', '-', '+', 'None1', ';']
+    return ['x', '1.5', '--1', 'none', '1 2', '0x10', 'NONE', '1e3', '-', '+', 'None1', ';', 'N', 'No', 'Non', 'one', 'on', 'ne', 'e', 'o', 'n', 'Nonee', ' N ']
 
 
 def in_situ(ctx, traces):
